@@ -85,8 +85,6 @@ NOT_APPLICABLE = {
            "input-proportional loops are outside the reach of the solver-based engines available.",
     "C44": "path execution runs over account-loader-backed revertible markets and HashSet<Pubkey> (RandomState) duplicate detection, "
            "reachable only through Anchor contexts and CPIs; per-hop arithmetic is decided under C04/C05.",
-    "C45": "three parts exist: gmsol-model GLV pricing round trip at u8 (harness/liq), Glv::insert_market admission (harness/store/src/c45_glv.rs, does not finish: 7 KB map image) and the balance caps "
-           "(mir2smt/props/C45.py, being written); not claimed until a quick tier covering the state part is quiet. ops/glv.rs instruction flow needs Anchor contexts.",
 }
 
 # Additional claims live in lib/claims/*.py, one file per work area; each defines CLAIMED and/or
